@@ -566,6 +566,8 @@ type parser struct {
 	choiceNoMatch string
 	// recovery expression stack, keeps track of the currently available recovery expression, these are traversed in reverse
 	recoveryStack []map[string]any
+	// variable set of the recovery operator of each recoveryStack entry
+	recoveryVars []map[string]any
 }
 
 // push a variable set on the vstack.
@@ -615,6 +617,7 @@ func (p *parser) pushRecovery(labels []string, expr any) {
 		m[fl] = expr
 	}
 	p.recoveryStack[len(p.recoveryStack)-1] = m
+	p.recoveryVars = append(p.recoveryVars, p.vstack[len(p.vstack)-1])
 }
 
 // pop a recovery expression from the recoveryStack
@@ -623,6 +626,8 @@ func (p *parser) popRecovery() {
 	p.recoveryStack[len(p.recoveryStack)-1] = nil
 
 	p.recoveryStack = p.recoveryStack[:len(p.recoveryStack)-1]
+	p.recoveryVars[len(p.recoveryVars)-1] = nil
+	p.recoveryVars = p.recoveryVars[:len(p.recoveryVars)-1]
 }
 
 // ==template== {{ if not .Optimize }}
@@ -1502,9 +1507,12 @@ func (p *parser) parseRecoveryExpr(recover *recoveryExpr) (any, bool) {
 
 	// {{ end }} ==template==
 
+	// a recovery operator has a variable set of its own, like the builder's label scope
+	p.pushV()
 	p.pushRecovery(recover.failureLabel, recover.recoverExpr)
 	val, ok := p.parseExprWrap(recover.expr)
 	p.popRecovery()
+	p.popV()
 
 	return val, ok
 }
@@ -1583,9 +1591,16 @@ func (p *parser) parseThrowExpr(expr *throwExpr) (any, bool) {
 
 	for i := len(p.recoveryStack) - 1; i >= 0; i-- {
 		if recoverExpr, ok := p.recoveryStack[i][expr.label]; ok {
+			// the recovery expression runs with the variable set of its operator,
+			// not with the one of the throw site
+			p.vstack = append(p.vstack, p.recoveryVars[i])
 			if val, ok := p.parseExprWrap(recoverExpr); ok {
+				p.vstack[len(p.vstack)-1] = nil
+				p.vstack = p.vstack[:len(p.vstack)-1]
 				return val, ok
 			}
+			p.vstack[len(p.vstack)-1] = nil
+			p.vstack = p.vstack[:len(p.vstack)-1]
 		}
 	}
 
